@@ -866,6 +866,80 @@ static std::string doOp(const std::string& op) {
     if (rfile) fclose(rfile);
     return "toks=" + o;
   }
+  // BEGIN C13R2 — every reader of source text (vlib/props/c13.py, families reader_* / path_*)
+  //   rdc <sr|rf> <max> <hex>      the chunk returned by EVERY read(buf, max) call of the library's StringReader / of
+  //                                apps/read_file.cpp on a FILE*, until a call returns <= 0; buf is a heap block of EXACTLY
+  //                                max bytes (an overrun is an ASan report)                       -> chunks=<hex>,<hex>,…
+  //   parsef K X <hex> <reader>    Parser::parse over a prescribed reader (reader as in `tok`: n,n,… | lines:<max> | - |
+  //                                sr | rf), executable kept in slot X      -> ok | perr <code> [<l>:<c>] msg=<hexwhat>
+  //   stepf K <hex> <reader>       the interactive loop (as `step`) over a prescribed reader, stops at the first error
+  //                                                                        -> ok- | ok V | rerr … | perr <code> [<l>:<c>] msg=<hexwhat>
+  if (cmd == "rdc") {
+    int max = atoi(a.at(2).c_str()); if (max <= 0) return "badop";
+    std::string txt = a.size() > 3 ? hexdec(a.at(3)) : "";
+    StringReader sreader(txt);
+    FILE* rfile = nullptr;
+    if (a.at(1) == "rf") {
+      int fd = memfd(); if (!txt.empty()) { ssize_t n = pwrite(fd, txt.data(), txt.size(), 0); (void)n; }
+      rfile = fdopen(fd, "r");
+    } else if (a.at(1) != "sr") return "badop";
+    ReadFile freader(rfile);
+    Parser::StreamReader& rd = rfile ? static_cast<Parser::StreamReader&>(freader) : static_cast<Parser::StreamReader&>(sreader);
+    std::string o; int ncalls = 0;
+    for (;;) {
+      char* buf = (char*) malloc((size_t) max);
+      int n = rd.read(nullptr, buf, max);
+      if (n <= 0) { free(buf); break; }
+      if (ncalls++) o.push_back(',');
+      o += hexenc(buf, (size_t) n);
+      free(buf);
+      if (ncalls > 400000) { o += ",runaway"; break; }
+    }
+    if (rfile) fclose(rfile);
+    return "chunks=" + o;
+  }
+  if (cmd == "parsef" || cmd == "stepf") {
+    bool step = cmd == "stepf";
+    Context& c = *K(1).ctx;
+    const std::string txt = hexdec(a.at(step ? 2 : 3));
+    const std::string& spec = a.at(step ? 3 : 4);
+    std::vector<int> sizes; bool lineMode = false; int maxl = 1 << 30;
+    if (spec.compare(0, 6, "lines:") == 0) { lineMode = true; maxl = atoi(spec.c_str() + 6); }
+    else if (spec != "-" && spec != "sr" && spec != "rf") for (auto& z : split(spec, ',')) sizes.push_back(atoi(z.c_str()));
+    FragReader reader(txt, sizes, lineMode, maxl);
+    StringReader sreader(txt);
+    FILE* rfile = nullptr;
+    if (spec == "rf") {
+      int fd = memfd(); if (!txt.empty()) { ssize_t n = pwrite(fd, txt.data(), txt.size(), 0); (void)n; }
+      rfile = fdopen(fd, "r");
+    }
+    ReadFile freader(rfile);
+    Parser::StreamReader& rd = spec == "sr" ? static_cast<Parser::StreamReader&>(sreader)
+                             : spec == "rf" ? static_cast<Parser::StreamReader&>(freader) : static_cast<Parser::StreamReader&>(reader);
+    std::string res;
+    if (!step) {
+      try { X(2) = Parser::parse(c, rd); res = "ok"; }
+      catch (ParseError& pe) { X(2) = nullptr; res = perr(pe) + " msg=" + hexenc(std::string(pe.what())); }
+    } else {
+      Parser* p = Parser::createInteractiveParser(c, rd);
+      res = "ok-";
+      try {
+        for (;;) {
+          Statement* s = nullptr;
+          try { s = p->parseStatement(); }
+          catch (ParseError& pe) { if (pe.no == EXC_PARSE_EOF) break; res = perr(pe) + " msg=" + hexenc(std::string(pe.what())); break; }
+          if (s == nullptr) { if (p->state() == Parser::Aborted) break; continue; }
+          try { std::list<const Statement*> l; l.push_back(s); Executable::run(c, l); delete s; }
+          catch (RuntimeError& re) { delete s; res = rerr(re); break; }
+          if (c.returnCondition()) { res = retValue(c); c.returnCondition(false); break; }
+        }
+      } catch (...) { delete p; if (rfile) fclose(rfile); throw; }
+      delete p;
+    }
+    if (rfile) fclose(rfile);
+    return res;
+  }
+  // END C13R2
   // BEGIN C16 C17
   { std::string r; if (doOpC1617(a, r)) return r; }
   // END C16 C17
